@@ -235,7 +235,7 @@ func c13Gen(t *rapid.T) c13Case {
 		c.Script = rapid.SliceOfN(rapid.SampledFrom(ops), 0, 3).Draw(t, "script")
 		c.Exit = rapid.SampledFrom([]int{0, 0, 0, 1, 3, 255}).Draw(t, "exit")
 		if c.Mode == "match" {
-			c.Perturb = rapid.SliceOfN(rapid.SampledFrom([]string{"drop", "add", "digest", "otheralg"}), 0, 3).Draw(t, "perturb")
+			c.Perturb = rapid.SliceOfN(rapid.SampledFrom([]string{"drop", "add", "digest", "otheralg", "normalized", "normalized"}), 0, 3).Draw(t, "perturb")
 		}
 	}
 	return c
@@ -559,6 +559,22 @@ func c13Run(c c13Case, r *hx.Rec) error {
 						}
 					}
 				}
+			case "normalized":
+				// the link holds the digest of the file with its line endings normalised; the local file has the
+				// other line endings: other bytes, a difference
+				nm := mo
+				nm.Normalize = true
+				if norm, nerr := hx.RefRecord(nm); nerr == nil {
+					for j := range names {
+						n := names[(i+j)%len(names)]
+						if _, still := products[n]; still && !reflect.DeepEqual(norm[n], base[n]) && len(base[n]) > 0 && !contains(wantDiffer, n) {
+							products[n] = intoto.HashObj(norm[n])
+							wantDiffer = append(wantDiffer, n)
+							r.Label("link-holds-normalised-digest")
+							break
+						}
+					}
+				}
 			case "digest":
 				if len(names) > i {
 					if _, still := products[names[i]]; still {
@@ -586,6 +602,14 @@ func c13Run(c c13Case, r *hx.Rec) error {
 		if merr != nil {
 			return fmt.Errorf("InTotoMatchProducts failed: %v", merr)
 		}
+		wantDiffer = dedup(wantDiffer) // (two perturbations may hit the same product)
+		var stillListed []string
+		for _, n := range wantDiffer {
+			if _, ok := products[n]; ok { // (a later perturbation may have dropped it from the link)
+				stillListed = append(stillListed, n)
+			}
+		}
+		wantDiffer = stillListed
 		for _, l := range []*[]string{&only, &not, &differ, &wantOnly, &wantNot, &wantDiffer} {
 			sort.Strings(*l)
 			if *l == nil {
